@@ -1,4 +1,4 @@
 From Coq Require Extraction ExtrOcamlBasic.
-From Centro Require Import Base.Sx Model.LabelGraph Spec.LabelGraph.
+From Centro Require Import Base.Sx Model.LabelGraph Spec.LabelGraph Spec.EulerReduceC15.
 Extraction Language OCaml.
-Extraction "extracted/c15.ml" entry_relabel entry_neighbors entry_colors entry_euler entry_acc entry_check_euler entry_check_neighbors entry_check_colors entry_check_relabel entry_check_acc.
+Extraction "extracted/c15.ml" entry_relabel entry_neighbors entry_colors entry_euler entry_acc entry_check_euler entry_check_neighbors entry_check_colors entry_check_relabel entry_check_acc entry_reduce.
